@@ -345,3 +345,125 @@ package scanner
 //@   modifies s.step, s.returnToStep.vals
 //@   ensures panics <==> (!isHexDigit(c) || old(len(s.returnToStep.vals)) == 0)
 //@   ensures normal ==> result == scanContinue && s.step == old(s.returnToStep.vals[len(s.returnToStep.vals) - 1]) && len(s.returnToStep.vals) == old(len(s.returnToStep.vals)) - 1
+
+// ---- C05/C10: numbers in a schema: JSON integers and decimals WITHOUT exponent; the flag
+// unfinishedLiteral is up exactly while the numeral cannot end (after '-' and after '.') ----
+//@ func stateNeg(s, c)
+//@   props C05 C10 C13
+//@   requires s != nil && 1 <= s.index && s.index <= len(s.data)
+//@   maypanic
+//@   modifies s.step, s.unfinishedLiteral
+//@   ensures panics <==> !('0' <= c && c <= '9')
+//@   ensures panics ==> typeis(pv, errors.DocumentError)
+//@   ensures normal ==> result == scanContinue && !s.unfinishedLiteral && s.step == (c == '0' ? state0 : state1)
+//@ func stateDot(s, c)
+//@   props C05 C10 C13
+//@   requires s != nil && 1 <= s.index && s.index <= len(s.data)
+//@   maypanic
+//@   modifies s.step, s.unfinishedLiteral
+//@   ensures panics <==> !('0' <= c && c <= '9')
+//@   ensures panics ==> typeis(pv, errors.DocumentError)
+//@   ensures normal ==> result == scanContinue && !s.unfinishedLiteral && s.step == stateDot0
+//@ func state0(s, c)
+//@   props C05 C10 C13
+//@   requires s != nil && s.stack != nil && s.returnToStep != nil && s.prevContextsStack != nil && 1 <= s.index && s.index <= len(s.data)
+//@   maypanic
+//@   modifies *
+//@   ensures c == '.' ==> normal && result == scanContinue && s.step == stateDot && s.unfinishedLiteral
+//@   ensures c == 'e' || c == 'E' ==> panics && typeis(pv, errors.DocumentError)
+//@ func state1(s, c)
+//@   props C05 C10 C13
+//@   requires s != nil && s.stack != nil && s.returnToStep != nil && s.prevContextsStack != nil && 1 <= s.index && s.index <= len(s.data)
+//@   maypanic
+//@   modifies *
+//@   ensures '0' <= c && c <= '9' ==> normal && result == scanContinue && s.step == state1 && s.unfinishedLiteral == old(s.unfinishedLiteral)
+//@   ensures c == '.' ==> normal && result == scanContinue && s.step == stateDot && s.unfinishedLiteral
+//@   ensures c == 'e' || c == 'E' ==> panics && typeis(pv, errors.DocumentError)
+//@ func stateDot0(s, c)
+//@   props C05 C10 C13
+//@   requires s != nil && s.stack != nil && s.returnToStep != nil && s.prevContextsStack != nil && 1 <= s.index && s.index <= len(s.data)
+//@   maypanic
+//@   modifies *
+//@   ensures '0' <= c && c <= '9' ==> normal && result == scanContinue && s.step == old(s.step) && s.unfinishedLiteral == old(s.unfinishedLiteral)
+//@   ensures c == 'e' || c == 'E' ==> panics && typeis(pv, errors.DocumentError)
+// the three literal names, letter by letter
+//@ func stateT(s, c)
+//@   props C05 C13
+//@   requires s != nil && 1 <= s.index && s.index <= len(s.data)
+//@   maypanic
+//@   modifies s.step, s.unfinishedLiteral
+//@   ensures panics <==> c != 'r'
+//@   ensures panics ==> typeis(pv, errors.DocumentError)
+//@   ensures normal ==> result == scanContinue && s.step == stateTr && s.unfinishedLiteral == old(s.unfinishedLiteral)
+//@ func stateTr(s, c)
+//@   props C05 C13
+//@   requires s != nil && 1 <= s.index && s.index <= len(s.data)
+//@   maypanic
+//@   modifies s.step, s.unfinishedLiteral
+//@   ensures panics <==> c != 'u'
+//@   ensures panics ==> typeis(pv, errors.DocumentError)
+//@   ensures normal ==> result == scanContinue && s.step == stateTru && s.unfinishedLiteral == old(s.unfinishedLiteral)
+//@ func stateTru(s, c)
+//@   props C05 C13
+//@   requires s != nil && 1 <= s.index && s.index <= len(s.data)
+//@   maypanic
+//@   modifies s.step, s.unfinishedLiteral
+//@   ensures panics <==> c != 'e'
+//@   ensures panics ==> typeis(pv, errors.DocumentError)
+//@   ensures normal ==> result == scanContinue && s.step == stateEndValue && !s.unfinishedLiteral
+//@ func stateF(s, c)
+//@   props C05 C13
+//@   requires s != nil && 1 <= s.index && s.index <= len(s.data)
+//@   maypanic
+//@   modifies s.step, s.unfinishedLiteral
+//@   ensures panics <==> c != 'a'
+//@   ensures panics ==> typeis(pv, errors.DocumentError)
+//@   ensures normal ==> result == scanContinue && s.step == stateFa && s.unfinishedLiteral == old(s.unfinishedLiteral)
+//@ func stateFa(s, c)
+//@   props C05 C13
+//@   requires s != nil && 1 <= s.index && s.index <= len(s.data)
+//@   maypanic
+//@   modifies s.step, s.unfinishedLiteral
+//@   ensures panics <==> c != 'l'
+//@   ensures panics ==> typeis(pv, errors.DocumentError)
+//@   ensures normal ==> result == scanContinue && s.step == stateFal && s.unfinishedLiteral == old(s.unfinishedLiteral)
+//@ func stateFal(s, c)
+//@   props C05 C13
+//@   requires s != nil && 1 <= s.index && s.index <= len(s.data)
+//@   maypanic
+//@   modifies s.step, s.unfinishedLiteral
+//@   ensures panics <==> c != 's'
+//@   ensures panics ==> typeis(pv, errors.DocumentError)
+//@   ensures normal ==> result == scanContinue && s.step == stateFals && s.unfinishedLiteral == old(s.unfinishedLiteral)
+//@ func stateFals(s, c)
+//@   props C05 C13
+//@   requires s != nil && 1 <= s.index && s.index <= len(s.data)
+//@   maypanic
+//@   modifies s.step, s.unfinishedLiteral
+//@   ensures panics <==> c != 'e'
+//@   ensures panics ==> typeis(pv, errors.DocumentError)
+//@   ensures normal ==> result == scanContinue && s.step == stateEndValue && !s.unfinishedLiteral
+//@ func stateN(s, c)
+//@   props C05 C13
+//@   requires s != nil && 1 <= s.index && s.index <= len(s.data)
+//@   maypanic
+//@   modifies s.step, s.unfinishedLiteral
+//@   ensures panics <==> c != 'u'
+//@   ensures panics ==> typeis(pv, errors.DocumentError)
+//@   ensures normal ==> result == scanContinue && s.step == stateNu && s.unfinishedLiteral == old(s.unfinishedLiteral)
+//@ func stateNu(s, c)
+//@   props C05 C13
+//@   requires s != nil && 1 <= s.index && s.index <= len(s.data)
+//@   maypanic
+//@   modifies s.step, s.unfinishedLiteral
+//@   ensures panics <==> c != 'l'
+//@   ensures panics ==> typeis(pv, errors.DocumentError)
+//@   ensures normal ==> result == scanContinue && s.step == stateNul && s.unfinishedLiteral == old(s.unfinishedLiteral)
+//@ func stateNul(s, c)
+//@   props C05 C13
+//@   requires s != nil && 1 <= s.index && s.index <= len(s.data)
+//@   maypanic
+//@   modifies s.step, s.unfinishedLiteral
+//@   ensures panics <==> c != 'l'
+//@   ensures panics ==> typeis(pv, errors.DocumentError)
+//@   ensures normal ==> result == scanContinue && s.step == stateEndValue && !s.unfinishedLiteral
